@@ -147,6 +147,7 @@ func c01(c *Ctx) {
 	c01R5(c)
 	c01R6(c)
 	c01R7(c)
+	c01R8(c)
 }
 
 // ---------- R1 lock discipline ----------
@@ -1183,4 +1184,54 @@ func c01R7(c *Ctx) {
 		c.Check(w == nil && sawGuard, "C01.R7", "no second ni.Allocate for a request once a channel was returned", p.Pos(cs.Call), fn.Key(),
 			"every path from ni.Allocate back to itself within one request takes the ch == nil edge", "path with ch != nil: "+p.describePath(w))
 	}
+}
+
+// ---------- R8 where pool entries come from ----------
+
+// An entry enters the pool as Valid only from the cloud's answer to an assignment or from the
+// interface's address list at start-up: an address the daemon asked the cloud to remove never
+// becomes allocatable again by the daemon's own decision (the cloud's answer to an unassign
+// call does not tell whether the call took effect).
+func c01R8(c *Ctx) {
+	p := c.P
+	c.Rule("C01.R8", "Set.PutValid (a fresh Valid entry, unowned, not primary) is called only with addresses the cloud just assigned (factoryAllocWorker) or reports on start-up (load); the reply channel of an allocation is unbuffered, so a completed send proves the caller received the address")
+	putValid := p.Method(eniPkg, "Set", "PutValid")
+	if putValid == nil {
+		c.Unres("C01.R8", "Set.PutValid", "not found")
+		return
+	}
+	allowed := map[string]string{
+		"pkg/eni.Local.factoryAllocWorker": "addresses returned by AssignNIPv4/6 or CreateNetworkInterface",
+		"pkg/eni.Local.load":               "addresses of the attached interface at start-up",
+	}
+	sites := p.CallsTo(nil, putValid)
+	c.WhoMay("C01.R8", "call Set.PutValid", groupCalls(sites), allowed)
+	c.WhoMayCallDeep("C01.R8", "call Set.PutValid", []*types.Func{putValid}, allowed)
+	c.Floor("C01.R8", "PutValid call sites", 3, len(sites))
+	// reply channels
+	n := 0
+	for _, fn := range p.FuncsInPkg(eniPkg) {
+		info := fn.Info()
+		ast.Inspect(fn.Decl.Body, func(nd ast.Node) bool {
+			call, ok := isBuiltinCall(info, asExpr(nd), "make")
+			if !ok || len(call.Args) == 0 {
+				return true
+			}
+			ch, ok := info.TypeOf(call.Args[0]).Underlying().(*types.Chan)
+			if !ok || !typeIs(ch.Elem(), modPath+"/"+eniPkg, "AllocResp") {
+				return true
+			}
+			n++
+			c.Check(len(call.Args) == 1, "C01.R8", "reply channel created in "+fn.Key()+" is unbuffered", p.Pos(call), fn.Key(), "make(chan *AllocResp)", exprString(call))
+			return true
+		})
+	}
+	c.Floor("C01.R8", "reply channels created in pkg/eni", 3, n)
+}
+
+func asExpr(n ast.Node) ast.Expr {
+	if e, ok := n.(ast.Expr); ok {
+		return e
+	}
+	return nil
 }
